@@ -10,6 +10,14 @@
 open Model
 open Vutil
 
+(* Blake2b-256 of the model, memoised (the extracted functions take the hash as a parameter) *)
+let hash_tbl : (string, byte list) Hashtbl.t = Hashtbl.create 4096
+let hash_memo (x : byte list) : byte list =
+  let k = string_of_bytes x in
+  match Hashtbl.find_opt hash_tbl k with
+  | Some h -> h
+  | None -> let h = hash256 x in Hashtbl.add hash_tbl k h; h
+
 let nib_of_bytes (l : byte list) : string =
   if l = [] then "-" else String.concat "" (List.map (fun x -> Printf.sprintf "%x" (int_of_byte x)) l)
 let bytes_of_nib (s : string) : byte list =
@@ -46,7 +54,7 @@ let model_entries (t : tnode option) : (string * string) list =
   List.sort compare (List.map (fun (k, v) -> (hex_of_bytes k, hex_of_bytes v)) (entries t))
 
 let root_of (t : tnode option) : byte list =
-  match t with None -> empty_root hash256 | Some n -> hash256 (encode hash256 n)
+  match t with None -> empty_root hash_memo | Some n -> hash_memo (encode hash_memo n)
 
 (* canonical dump of a model database: latest binding wins, sorted *)
 let db_dump (d : (byte list * byte list) list) : (string * string) list =
@@ -69,7 +77,7 @@ let rec wnode_stats (WN (pk, sv, mbh, dirty, cs)) (is_root : bool) (acc : (strin
   List.iter (function
       | None -> ()
       | Some (WN (_, _, _, _, ccs) as c) ->
-        let e = encode hash256 (erase c) in
+        let e = encode hash_memo (erase c) in
         if List.length e < 32 then begin
           Hashtbl.replace acc "inlined-child" ();
           if ccs <> [] then Hashtbl.replace acc "inlined-branch-child" ()
@@ -140,8 +148,8 @@ let check inp obs =
     if hex_of_bytes mroot <> r then mbad "root";
     if model_entries tt <> me then mbad "entries";
     let wchildren = List.filter_map (fun x -> x) children in
-    let db' = write_dirty_fixed hash256 !db t wchildren in
-    let db_pinned = write_dirty_pinned hash256 !db t wchildren in
+    let db' = write_dirty_fixed hash_memo !db t wchildren in
+    let db_pinned = write_dirty_pinned hash_memo !db t wchildren in
     if db_dump db_pinned <> db_dump db' then Hashtbl.replace tags "pinned-writedirty-differs" ();
     db := db';
     if db_dump db' <> dump then begin
@@ -151,7 +159,7 @@ let check inp obs =
     end;
     let d = !db in
     (* load *)
-    let mload = (match load_all hash256 st dfix (nat_of_int 200) d mroot with
+    let mload = (match load_all hash_memo st dfix (nat_of_int 200) d mroot with
       | Ok (lt, cts) ->
         let cts = List.sort_uniq compare (List.map (fun (h, ct) -> (hex_of_bytes h, model_entries ct)) cts) in
         Some (hex_of_bytes (root_of lt), model_entries lt, cts)
@@ -160,8 +168,8 @@ let check inp obs =
     (* point reads *)
     List.iter (fun (k, truth, dbv) ->
         let kb = bytes_of_hex k in
-        let m = res_str (get_from_db_fixed hash256 st dfix d mroot kb) in
-        let mp = res_str (get_from_db_pinned hash256 st dfix d mroot kb) in
+        let m = res_str (get_from_db_fixed hash_memo st dfix d mroot kb) in
+        let mp = res_str (get_from_db_pinned hash_memo st dfix d mroot kb) in
         if mp <> m then Hashtbl.replace tags "pinned-getfromdb-differs" ();
         let mt = (match lookup_bytes tt kb with None -> "nil" | Some v -> "v:" ^ hex_of_bytes v) in
         if mt <> truth then mbad ("lookup " ^ k);
